@@ -116,7 +116,7 @@ func c09(c *ctx) {
 				if isNilConst(b) {
 					continue
 				}
-				r.Check(b == w, "R2/"+fnName(f)+"/versioned-store-batch", c.p.Pos(cs.Pos()), "writes into the Store's own batch", "a VersionedStore is built over batch "+c.p.path(b)+", which is not the batch stored in Store.writer ("+c.p.path(w)+"): its writes would not be part of the block's atomic write")
+				r.Check(stripLift(b) == stripLift(w), "R2/"+fnName(f)+"/versioned-store-batch", c.p.Pos(cs.Pos()), "writes into the Store's own batch", "a VersionedStore is built over batch "+c.p.path(b)+", which is not the batch stored in Store.writer ("+c.p.path(w)+"): its writes would not be part of the block's atomic write")
 			}
 		}
 		// everywhere else in the package: writable versioned stores use s.writer (Rollback builds its own offline batch)
@@ -221,7 +221,23 @@ func c09(c *ctx) {
 				} else if len(cc.Args) > 0 {
 					recv = cc.Args[0]
 				}
-				flushed = append(flushed, c.p.path(recv))
+				rp := c.p.path(recv)
+				flushed = append(flushed, rp)
+				if !strings.HasPrefix(rp, "$0") {
+					// the receiver is an element of a local list (for _, txn := range pending { txn.Commit() }):
+					// everything the function puts into a list with append / a literal is committed
+					instrs(flush, func(in2 ssa.Instruction) {
+						call, ok := in2.(*ssa.Call)
+						if !ok {
+							return
+						}
+						if bi, ok := call.Common().Value.(*ssa.Builtin); ok && bi.Name() == "append" && len(call.Common().Args) == 2 {
+							for _, el := range sliceLitElems(call.Common().Args[1]) {
+								flushed = append(flushed, c.p.path(el))
+							}
+						}
+					})
+				}
 			}
 		}
 	})
@@ -382,13 +398,48 @@ func c10(c *ctx) {
 			}
 		})
 		r.Check(okPass && n >= 2, "R1/Txn.write/version-pass-through", c.p.Pos(txnWrite.Pos()), "SetAt/DeleteAt receive the writeVersion parameter", "Txn.write no longer forwards its writeVersion parameter to SetAt/DeleteAt")
-		// Txn.Commit flushes with the Txn's own writeVersion field
-		txnCommit, txnFlush := c.fn("store.(*Txn).Commit"), c.fn("store.(*Txn).flush")
-		if txnCommit != nil && txnFlush != nil {
-			for _, cs := range callsIn(txnCommit, false, txnFlush) {
-				p := c.p.path(argOf(cs, 1))
-				r.Check(p == "$0.writeVersion" || p == "next($0.flushTo())#1", "R1/Txn.Commit/flush-version", c.p.Pos(cs.Pos()), "flush at the versions flushTo() names", "Txn.Commit flushes at version "+p+" instead of the Txn's writeVersion / the versions named by flushTo()")
+		// every write of a Txn goes out at the Txn's own writeVersion / the versions flushTo() names — whether Commit calls
+		// write directly or through a helper (flush) that passes its version parameter on
+		txnCommit := c.fn("store.(*Txn).Commit")
+		if txnCommit != nil {
+			var versionOK func(f *ssa.Function, v ssa.Value, depth int) (bool, string)
+			versionOK = func(f *ssa.Function, v ssa.Value, depth int) (bool, string) {
+				p := c.p.path(stripLift(v))
+				if p == "$0.writeVersion" || p == "next($0.flushTo())#1" {
+					return true, p
+				}
+				if pa, isParam := stripLift(v).(*ssa.Parameter); isParam && depth < 3 {
+					idx := paramIndex(pa)
+					sites := c.p.callSitesOf(f)
+					if len(sites) == 0 {
+						return false, p + " (parameter of a function nobody calls)"
+					}
+					for _, site := range sites {
+						if isTestFile(c.p, site.Site.Pos()) {
+							continue
+						}
+						args := site.Site.Common().Args
+						if idx >= len(args) {
+							return false, p
+						}
+						if ok, why := versionOK(enclosing(site.Caller), args[idx], depth+1); !ok {
+							return false, why
+						}
+					}
+					return true, p + " (forwarded parameter)"
+				}
+				return false, p
 			}
+			nW := 0
+			for _, site := range c.p.callSitesOf(txnWrite) {
+				if isTestFile(c.p, site.Site.Pos()) || pkgShort(site.Caller) != "store" {
+					continue
+				}
+				nW++
+				ok, why := versionOK(enclosing(site.Caller), argOf(site.Site, 1), 0)
+				r.Check(ok, "R1/Txn.Commit/flush-version", c.p.Pos(site.Site.Pos()), "writes at "+why, fnName(enclosing(site.Caller))+" writes a Txn's operations at version "+why+" instead of the Txn's writeVersion / the versions named by flushTo()")
+			}
+			r.Check(nW >= 1, "R1/Txn.write/callers", c.p.Pos(txnWrite.Pos()), "Txn.write is called", "Txn.write has no caller any more (rule needs re-reading)")
 			if flushTo := c.fn("store.(*Txn).flushTo"); flushTo != nil {
 				instrs(flushTo, func(in ssa.Instruction) {
 					if mu, ok := in.(*ssa.MapUpdate); ok {
